@@ -143,7 +143,7 @@ SPECS = [
     ("hdrFieldSizeOverhead", "lib/src/protocol/mux/h2.rs", r"const HEADER_FIELD_SIZE_OVERHEAD: usize = ([^;]+);", "RFC 9113 6.5.2 per-field overhead"),
     ("cfgH2MinBufferSize", "command/src/config.rs", r"pub const H2_MIN_BUFFER_SIZE: u64 = ([^;]+);", "smallest buffer_size accepted when an HTTPS listener advertises h2"),
     ("cfgDefaultBufferSize", "command/src/config.rs", r"pub const DEFAULT_BUFFER_SIZE: u64 = ([^;]+);", "buffer_size when the file does not set it"),
-    ("cfgMsgCounterBits", "command/src/config.rs", r"let mut count = 0u(\d+);", "width of the message id counter of generate_config_messages (after a repair to usize: change this pattern / the constant to 64)"),
+    ("cfgMsgCounterBits", "command/src/config.rs", r"let mut count = 0(u8|u16|u32|u64|usize|u128);", "width in bits of the message id counter of generate_config_messages"),
     # --- Answers (C02): the cause -> status literals of Mux::ready / Mux::timeout / end_stream_decision ---
     ("ansConnRetries", "lib/src/server.rs", r"pub const CONN_RETRIES: u8 = ([^;]+);", "connection attempts per request before 503"),
     ("ansRetriesExhausted", "lib/src/protocol/mux/mod.rs", r"BE::MaxConnectionRetries\(_\)\s+\| BE::MaxSessionsMemory\s+\| BE::MaxBuffers => \{\s+warn!\([^;]*\);\s+set_default_answer\(stream, front_readiness, (\d+), &answers\);", "MaxConnectionRetries | MaxSessionsMemory | MaxBuffers"),
@@ -236,8 +236,14 @@ STRING_LISTS = [
 ]
 
 
+# a captured Rust unsigned integer type stands for its width in bits (usize: 64-bit targets)
+TYPE_BITS = {"u8": 8, "u16": 16, "u32": 32, "u64": 64, "usize": 64, "u128": 128}
+
+
 def ev(expr):
     e = re.sub(r"//.*", "", expr).strip()
+    if e in TYPE_BITS:
+        return TYPE_BITS[e]
     e = re.sub(r"(?<=[0-9a-fA-FxX])_(?=[0-9a-fA-F])", "", e)
     e = re.sub(r"(?<=\d)(usize|u64|u32|u16|u8|i32|i64)\b", "", e)
     e = re.sub(r"\s+as\s+\w+", "", e)
